@@ -8,6 +8,10 @@
 (*         random polynomial of degree min(order, 6)                       *)
 (*   qpath max |constant path - time-varying path| / scale * 2^30 where    *)
 (*         both stencils are interior                                      *)
+(*   qloc  (long records with a 1e12 dynamic range) max interior error of  *)
+(*         an output sample relative to sum |tap * sample| over ITS OWN    *)
+(*         stencil, * 2^30;  qint number of interior samples of an integer *)
+(*         shift that are not bitwise the displaced input sample           *)
 (*   qrep  max |second call - first call| * 2^30 (same arguments, same     *)
 (*         argument objects), same = 1 iff the argument arrays are         *)
 (*         bitwise unchanged after the calls                               *)
@@ -25,6 +29,8 @@ Step ==
     /\ Check("C16:taps_sum_to_one", Ev.qsum <= 8)
     /\ Check("C16:reproduces_polynomials_of_degree_le_order", Ev.qres <= 64)
     /\ Check("C16:constant_and_varying_paths_agree_in_interior", Ev.qpath <= 64)
+    /\ Check("C16:interior_sample_is_the_local_lagrange_interpolant", Ev.qloc <= 64)
+    /\ Check("C16:integer_shift_is_exact_displacement", Ev.qint = 0)
     /\ Check("C16:repeated_call_gives_same_result", Ev.qrep = 0)
     /\ Check("C16:arguments_not_modified", Ev.same = 1)
     /\ l' = l + 1 /\ UNCHANGED tid
